@@ -274,13 +274,11 @@ impl EncodingType {
                 (EncodingType::F64, EncodingType::I64) | (EncodingType::I64, EncodingType::F64) => {
                     EncodingType::Val
                 }
-                (EncodingType::F64, EncodingType::Null)
-                | (EncodingType::Null, EncodingType::F64) => EncodingType::F64,
                 (EncodingType::I64, EncodingType::Null)
                 | (EncodingType::Null, EncodingType::I64) => EncodingType::I64,
                 (EncodingType::OptStr, EncodingType::Str)
                 | (EncodingType::Str, EncodingType::OptStr) => EncodingType::OptStr,
-                _ => unimplemented!("lub not implemented for {:?} and {:?}", self, other),
+                _ => EncodingType::Val,
             }
         }
     }
